@@ -53,6 +53,8 @@ def build_node_ext(node, objs, notes=None):
     return d
   if k == 'odict':   # a dict subclass: not traversed by daglish, i.e. a mutable leaf
     return collections.OrderedDict((leaves.dec(kk), leaves.dec(v)) for kk, v in zip(node['keys'], node['vals']))
+  if k == 'dcinst':  # a plain dataclass *instance* (opaque for the default registry)
+    return things.DCPlain(**{n: recipes.deref(r, objs) for n, r in node['attrs'].items()})
   if k == 'holder':
     return things.DictObj(**{n: recipes.deref(r, objs) for n, r in node['attrs'].items()})
   if k == 'set':      # 'elems' (leaf encodings, not refs); 'items' is read for old replay files
@@ -258,6 +260,11 @@ def dag(draw, *, max_nodes=12, leaf_profile='plain', kinds=None, p_alias=0.55,
       hs = leaves.leaf('hashable_ser')
       items = draw(st.lists(hs, max_size=4, unique_by=lambda k: _hash_key(leaves.dec(k))))
       node = {'k': kind, 'elems': items}
+    elif kind == 'dcinst':
+      # leaf fields only: for the default registry the instance is an opaque object that rebuilds pass
+      # through by reference, so references from inside it to other nodes would not follow a rebuild
+      node = {'k': 'dcinst', 'attrs': {n: {'leaf': draw(leaf_st)}
+                                       for n in draw(st.lists(st.sampled_from(['u', 'v']), unique=True, min_size=1))}}
     elif kind == 'odict':
       keys = draw(st.lists(st.sampled_from(['a', 'b', 'k', 1]), unique=True, min_size=1, max_size=3))
       node = {'k': 'odict', 'keys': keys, 'vals': [draw(leaf_st) for _ in keys]}
